@@ -102,6 +102,9 @@ async def correspond(ctx):
 
 
 async def search(ctx):
+    import corr_kernel as _ck
+
+    await _ck.run_scenarios(ctx, lambda ctx, run_: Observer(ctx, run_), ["nested_chain", "amended_consumer_rerun"])
     import contextlib
 
     import corr_kernel
